@@ -373,6 +373,12 @@ def r5_start_after_release(ctx: Context) -> None:
         # _start_time is the given time at that point
         sets = [n for n in ast.walk(fn) if isinstance(n, ast.Assign) and any(is_self_attr(t, "_start_time") for t in n.targets)]
         ok = bool(sets) and g.dominates(g.node_of(sets[0]), asserts[0]) and "time" in norm(sets[0].value)
+        if not ok and sets:
+            # `if time is not None: self._start_time = time` ahead of the assert: recorded on every path that was given a time
+            iff = parent(sets[0])
+            ok = isinstance(iff, ast.If) and any(x is sets[0] for x in iff.body) and norm(iff.test) in ("time is not None", "time != None") \
+                and norm(sets[0].value) == "time" and g.dominates(g.node_of(iff.test), asserts[0]) \
+                and not any(isinstance(x, ast.Assign) and any(is_self_attr(t, "_start_time") for t in x.targets) for y in iff.orelse for x in ast.walk(y))
         ctx.check(ok, "C02.R5", "Task.start|start time recorded before the check", loc(sets[0]) if sets else loc(fn),
                   "self._start_time = time ... precedes the assert", "the assert does not see the new start time")
     sim = Sim(ctx.repo)
@@ -387,6 +393,32 @@ def r5_start_after_release(ctx: Context) -> None:
               and any(isinstance(x, ast.Raise) for x in parent(t.ast).body)
               and lin.entails(past, lin.formula(t.ast)) and "placement_time" in src(t.ast)]
     ok = any(g.edge_dominates(t, "F", g.node_of(creators[0])) for t in guards)
+    if not ok:
+        # nested form: `if placed: (if time < now: raise) ...` ahead of the creation: the conjunction of the tests around a raise is
+        # implied by "placed and in the past", and the outermost of them is evaluated on every path to the creation
+        common = set()
+        q = creators[0]
+        while q is not None:
+            common.add(id(q))
+            q = parent(q)
+        for r in [x for x in ast.walk(h) if isinstance(x, ast.Raise)]:
+            chain = []
+            node, top = r, None
+            while True:
+                p = parent(node)
+                # tests that enclose the creation as well are not part of the rejection condition
+                if p is None or isinstance(p, (ast.For, ast.While, ast.FunctionDef)) or id(p) in common:
+                    break
+                if isinstance(p, ast.If):
+                    f = lin.formula(p.test)
+                    chain.append(f if any(x is node for x in p.body) else lin.f_not(f))
+                    top = p
+                node = p
+            if top is None or not any("placement_time" in src(t) for t in [top.test] + [x.test for x in ast.walk(top) if isinstance(x, ast.If)]):
+                continue
+            if lin.entails(past, ("and", chain)) and g.dominates(g.node_of(top.test), g.node_of(creators[0])):
+                ok = True
+                break
     ctx.check(ok, "C02.R5", f"{qualname(h)}|placements in the past rejected", loc(creators[0]),
               "placed and placement_time < now -> raise, before the event is created",
               "a placement whose time is before the current time reaches event creation")
